@@ -187,11 +187,18 @@ func init() {
 func Parse(line string, b literal.Builder) (*Triple, error) {
 	raw := strings.TrimSpace(line)
 	idxp := pSplit.FindIndex([]byte(raw))
-	idxo := oSplit.FindIndex([]byte(raw))
-	if len(idxp) == 0 || len(idxo) == 0 {
+	if len(idxp) == 0 {
 		return nil, fmt.Errorf("triple.Parse could not split s p o  out of %s", raw)
 	}
-	ss, sp, so := raw[0:idxp[0]+1], raw[idxp[1]-1:idxo[0]+1], raw[idxo[1]-1:]
+	// The object starts after the predicate, so the end of the predicate has
+	// to be looked for after the end of the subject (a subject ID may contain
+	// "] /" itself).
+	rest := raw[idxp[1]-1:]
+	idxo := oSplit.FindIndex([]byte(rest))
+	if len(idxo) == 0 {
+		return nil, fmt.Errorf("triple.Parse could not split s p o  out of %s", raw)
+	}
+	ss, sp, so := raw[0:idxp[0]+1], rest[:idxo[0]+1], rest[idxo[1]-1:]
 	s, err := node.Parse(ss)
 	if err != nil {
 		return nil, fmt.Errorf("triple.Parse failed to parse subject %s with error %v", ss, err)
